@@ -7,10 +7,15 @@ sys.path.insert(0, os.path.dirname(os.path.dirname(os.path.abspath(__file__))))
 import runner
 
 TOKENS = ["MAGIC"]
-BUF = 4096
+BUF = 65540   # Detect's buffer (bufio.NewReaderSize(r, 0x10000+4))
+
+
+def _headlen(data_head, n):
+    """how much of a file the op line carries: 65540 bytes of a file that starts with MZ, 4096 of any other"""
+    return min(n, BUF if data_head[:2] == b"MZ" else 4096)
 RULE = ("MAGIC (detection and dispatch): every file of functest/packages and every relic-signed file of corpus/C11/bases under its own "
         "name, under a name that says nothing and under PowerShell/dmg names; files built by the PE, CAB, DEB, Mach-O (both byte orders), "
-        "PowerShell and APK builders of the other format packages; PE images with e_lfanew 64..65664 (4092/4093 = the bufio boundary); "
+        "PowerShell and APK builders of the other format packages; PE images with e_lfanew 64..65664 (65535 = the largest the 16-bit probe follows); "
         "application manifests with the root element 0..5000 bytes into the file; PGP armour and binary packets by first byte; "
         "SignedData DER with the OIDs moved through the end of the 256-byte window; ZIP archives written member list by member list "
         "(every marker name, the spellings path.Clean folds into it and those it does not, every ordered pair of markers, random "
@@ -18,12 +23,12 @@ RULE = ("MAGIC (detection and dispatch): every file of functest/packages and eve
         "truncated, bad method, over-long name field) under .dmg/.ps1 names; for each of the 21 patterns: exact, every truncation, "
         "every single byte changed, moved by one, for the window patterns the end position 255/256/257; every ordered pair of "
         "patterns in one file; 'ustar' with file lengths 256..263; the MZ probe with header lengths 2..0x44 and e_lfanew values "
-        "around 0x3c, 4092 and 0xfffc with file lengths e_lfanew+3/4/5; random byte strings of the boundary lengths with patterns "
+        "around 0x3c, 4092 (the boundary of the original reader) and 0xfffc..0xffff with file lengths e_lfanew+3/4/5; random byte strings of the boundary lengths (up to 65541) with patterns "
         "planted; ByName over every name/alias and 8 near-misses each, ByFileName/filepath.Ext over 45 hand-made and 60 random paths, "
         "ByMagic over -2..24, path.Clean over 90 names, POST /sign on the real handler for every such sigtype (which module's Sign is "
         "entered: recorded by call-through wrappers), the remote client's query replayed on it, verifyOne through a hook, "
         "magic.Decompress against zlib/lzma. Detect is run on a counting bytes.Reader, on readers handing out 1/7/255/4095 bytes at "
-        "a time and on one that ends in an error. Non-trivial = distinct op whose content is non-empty or whose look-up key is "
+        "a time (also 65539) and on one that ends in an error. Non-trivial = distinct op whose content is non-empty or whose look-up key is "
         "non-empty.")
 TRUSTED = ["Relic.Model.Magic is hand-written from lib/magic/magic.go, signers/signers.go, the two signcmd.go, server/view_sign.go, "
            "cmdline/verify/verify.go; tied by differential execution and by the regenerated tables (Relic.Generated.Magic)",
@@ -178,8 +183,8 @@ def _class(f):
     if exp == "pe-coff" and head[:2] == b"MZ":
         lf = _lfanew(head)
         data = _data(src, head)
-        if lf is not None and lf + 4 > BUF and data is not None and data[lf:lf + 4] == b"PE\0\0":
-            return "pe-lfanew-beyond-buffer"
+        if lf is not None and lf >= 65536 and data is not None and data[lf:lf + 4] == b"PE\0\0":
+            return "pe-lfanew-32bit"
     if exp == "ps" and ext in PS_EXTS and asm:
         return "assembly-text-shadows-filename"
     if exp == "mach-o" and head[:4] in (b"\xfe\xed\xfa\xce", b"\xfe\xed\xfa\xcf"):
@@ -223,8 +228,8 @@ def predicate(prop, op, il, mres, tag):
     i = _content_index(f)
     if i is not None and len(f) > i + 3:
         src, hd, n, zn = _content_at(f, i)
-        if len(hd) != min(n, BUF):
-            return ("Relic.Props.C01 (magic op line)", "head = first min(len, 4096) bytes", "generator wrote a wrong head/len pair")
+        if len(hd) != _headlen(hd, n):
+            return ("Relic.Props.C01 (magic op line)", "head = first min(len, H) bytes", "generator wrote a wrong head/len pair")
         if src == "=" and zn not in ("-", "E"):
             # independent look at the member list
             try:
@@ -245,7 +250,7 @@ def predicate(prop, op, il, mres, tag):
             return ("Relic.Props.C01.dispatch_standalone_eq_server", "sign " + left.split(" ")[1],
                     "the module the client resolved and the one the server entered differ: " + il)
     if kind == "srv" and il.startswith("ok panic"):
-        return ("Relic.Props.C01.server_refuses_what_standalone_refuses_full", "an error response (the sign commands answer: can't sign files of type)",
+        return ("Relic.Props.C01.server_refuses_what_standalone_refuses", "an error response (the sign commands answer: can't sign files of type)",
                 "POST /sign with this sigtype panics in the handler (recovered: 500): " + il)
     exp = _exp(f)
     if exp and prop == "C01" and kind in ("byfile", "remote", "verify"):
@@ -266,7 +271,7 @@ def matches_known(k, op, il, mres, tag):
         # the C11 runner's allocation account: an xz header naming a dictionary of exactly the decoder's limit
         i = _content_index(f)
         data = _b(f[i + 1]) if i is not None else (_b(f[3]) if f[1] == "decomp" and len(f) == 4 else b"")
-        return il.startswith("alloc magic.") and data[:6] == b"\xfd7zXZ\x00"
+        return f[1] == "decomp" and il.startswith("alloc magic.Decompress") and data[:6] == b"\xfd7zXZ\x00"
     if site == "magic:server-nil-sign":
         return f[1] == "srv" and il == "ok panic serveSign:nil-Sign" and _b(f[2]).decode("latin1") in NOSIGN and equiv(op, il, mres)
     cls = _class(f)
